@@ -155,13 +155,15 @@ Definition tiles_ok_float (eps : Q) (n : v4 Z) (vb : list (v4 float)) (tv : list
 Definition eps_float : Q := Qmake 1 (2 ^ 44).   (* 2^-44 *)
 
 (* ---------------- sweeps ---------------- *)
-Definition tri_keys (B : Z) : list (v4 Z) :=
-  flat_map (fun n0 => flat_map (fun n1 => map (fun n2 => V4 n0 n1 n2 0) (zseq 1 n1)) (zseq 1 n0)) (zseq 1 B).
+Definition tri_keys_between (lo hi : Z) : list (v4 Z) :=
+  flat_map (fun n0 => flat_map (fun n1 => map (fun n2 => V4 n0 n1 n2 0) (zseq 1 n1)) (zseq 1 n0)) (zseq lo (hi - lo + 1)).
+Definition tri_keys (B : Z) : list (v4 Z) := tri_keys_between 1 B.
 
 (* the cached keys of quads: side 0 is a minimal side (GetPartition rotates) *)
-Definition quad_keys (B : Z) : list (v4 Z) :=
+Definition quad_keys_between (lo hi B : Z) : list (v4 Z) :=
   flat_map (fun a => flat_map (fun b => flat_map (fun c => map (fun d => V4 a b c d) (zseq a (B - a + 1)))
-                                                (zseq a (B - a + 1))) (zseq a (B - a + 1))) (zseq 1 B).
+                                                (zseq a (B - a + 1))) (zseq a (B - a + 1))) (zseq lo (hi - lo + 1)).
+Definition quad_keys (B : Z) : list (v4 Z) := quad_keys_between 1 B B.
 
 Definition key_tiles_exact (n : v4 Z) : bool :=
   match cached_partition_q n with
@@ -178,3 +180,63 @@ Definition key_tiles_float (n : v4 Z) : bool :=
     Nat.eqb (length tv) (length tvq)
   | _, _ => false
   end.
+
+(* ---------------- further sweeps (topology only; float instance is enough) ---------------- *)
+Definition uniform_count_ok (n : Z) : bool :=
+  match cached_partition_f (V4 n n n 0) with
+  | Some (_, tv) => Z.of_nat (length tv) =? n * n
+  | None => false
+  end.
+
+(* PartitionQuad terminal cases on abstract vertex names: corners 0..3, side i
+   has ea_i vertices named 100*(i+1) .. (in the direction fwd_i); the result must
+   triangulate the outline (chain test only).                                   *)
+Definition quad_outline (ea : v4 Z) (fwd : v4 bool) : list Z :=
+  flat_map (fun i => Z.of_nat i :: map (fun k => get_edge_vert (V4 100 200 300 400) fwd i k) (zseq 0 (g4 ea i)))
+           [0; 1; 2; 3]%nat.
+
+Definition edge_eqb (x y : edge) : bool := (fst x =? fst y) && (snd x =? snd y).
+Definition cnt (l : list edge) (e : edge) : Z := fold_right (fun x s => (if edge_eqb x e then 1 else 0) + s) 0 l.
+Definition coef (l : list edge) (a b : Z) : Z := cnt l (a, b) - cnt l (b, a).
+
+(* boundary chain of tv = the closed path vs, tested on every edge that occurs *)
+Definition chain_is_cycle (tv : list tri) (vs : list Z) : bool :=
+  let de := dir_edges tv in let oe := cyc_pairs vs in
+  forallb (fun e => coef de (fst e) (snd e) =? coef oe (fst e) (snd e)) (de ++ oe).
+
+Definition quad_terminal_ok (ea : v4 Z) (fwd : v4 bool) : bool :=
+  match partition_quad float flerp 4 [] (V4 0 1 2 3) (V4 100 200 300 400) ea fwd with
+  | Some (tv, _) =>
+    chain_is_cycle tv (quad_outline ea fwd) &&
+    (Z.of_nat (length tv) =? 2 + c0 ea + c1 ea + c2 ea + c3 ea)
+  | None => false
+  end.
+
+Definition bool4s : list (v4 bool) :=
+  flat_map (fun a => flat_map (fun b => flat_map (fun c => map (fun d => V4 a b c d) [true; false]) [true; false]) [true; false]) [true; false].
+
+(* all terminal configurations: two consecutive sides without added vertices *)
+Definition terminal_eas (B : Z) : list (v4 Z) :=
+  flat_map (fun x => flat_map (fun y => [V4 0 0 x y; V4 y 0 0 x; V4 x y 0 0; V4 0 x y 0]) (zseq 0 (B + 1))) (zseq 0 (B + 1)).
+
+(* two triangles (s,e,x) and (e,s,y) sharing the edge s-e which is divided into d
+   pieces: new vertices 1000.. on the shared edge, seen forward by the first and
+   backward by the second triangle.  After Reindex the union must triangulate
+   the outer quadrilateral outline: the shared edge cancels completely.          *)
+Definition two_tri_ok (d a1 a2 b1 b2 : Z) : bool :=
+  match get_partition_f (V4 d a1 a2 0), get_partition_f (V4 d b1 b2 0) with
+  | Some pa, Some pb =>
+    match reindex float pa (V4 10 11 12 (-1)) (V4 1000 2000 3000 0) (V4 true true false false) 5000,
+          reindex float pb (V4 11 10 13 (-1)) (V4 1000 4000 6000 0) (V4 false true false false) 7000 with
+    | Some ta, Some tb =>
+      chain_is_cycle (ta ++ tb)
+        ([11] ++ zseq 2000 (a1 - 1) ++ [12] ++ rev (zseq 3000 (a2 - 1)) ++
+         [10] ++ zseq 4000 (b1 - 1) ++ [13] ++ rev (zseq 6000 (b2 - 1)))
+    | _, _ => false
+    end
+  | _, _ => false
+  end.
+
+Definition five_tuples (B : Z) : list (Z * Z * Z * Z * Z) :=
+  flat_map (fun d => flat_map (fun a1 => flat_map (fun a2 => flat_map (fun b1 => map (fun b2 => (d, a1, a2, b1, b2))
+     (zseq 1 B)) (zseq 1 B)) (zseq 1 B)) (zseq 1 B)) (zseq 1 B).
